@@ -85,6 +85,9 @@ func (w *World) NewEntities(count int, fn func(entity Entity)) {
 // are copied shallow. I.e. they will point to the same address as the original.
 func (w *World) CopyEntity(e Entity) Entity {
 	w.checkLocked()
+	if !w.Alive(e) {
+		panic("can't copy a dead entity")
+	}
 
 	s := &w.storage
 	entity := s.entityPool.Get()
